@@ -157,7 +157,45 @@ func agrees(exp, got any) bool {
 			return false
 		}
 	}
-	return reflect.DeepEqual(normEmpty(exp), normEmpty(got))
+	return wildEq(normEmpty(exp), normEmpty(got))
+}
+
+// wildEq: deep equality in which the expectation "*" matches anything
+// (explicit nondeterminism of the specification)
+func wildEq(exp, got any) bool {
+	if s, ok := exp.(string); ok && s == "*" {
+		return true
+	}
+	switch e := exp.(type) {
+	case map[string]any:
+		g, ok := got.(map[string]any)
+		if !ok {
+			return false
+		}
+		for k, ev := range e {
+			if !wildEq(ev, g[k]) {
+				return false
+			}
+		}
+		for k := range g {
+			if _, ok := e[k]; !ok {
+				return false
+			}
+		}
+		return true
+	case []any:
+		g, ok := got.([]any)
+		if !ok || len(g) != len(e) {
+			return false
+		}
+		for i := range e {
+			if !wildEq(e[i], g[i]) {
+				return false
+			}
+		}
+		return true
+	}
+	return reflect.DeepEqual(exp, got)
 }
 
 // normEmpty makes nil / empty list comparable
@@ -198,10 +236,11 @@ func init() {
 // ---- random trees (code -> spec) ---------------------------------------------
 
 type treeGen struct {
-	rng      *rand.Rand
-	maxDepth int
-	forms    bool
-	nils     bool
+	rng        *rand.Rand
+	maxDepth   int
+	forms      bool
+	nils       bool
+	validConds bool // only Conditions that pass Valid()
 }
 
 var leafAlphabet = []string{"a", "b", "c", "x", "y", "z", "0", "7", "SP", "SP", "TAB", "U2", "U3", "U4", ",", ";", "=", "&", "(", ")", "-", "_", "A", "N", "D"}
@@ -319,6 +358,17 @@ func (g *treeGen) cond(depth int) Node {
 	}
 	if g.rng.Intn(12) == 0 {
 		n["kw"] = []any{}
+	}
+	if g.validConds {
+		if n["op"] == "none" {
+			n["op"] = "Eq"
+		}
+		if len(n["kw"].([]any)) == 0 {
+			n["kw"] = []any{"k"}
+		}
+		if ex, _ := n["ex"].(Node); ex != nil && ex["t"] == "nil" {
+			n["ex"] = Node{"t": "leaf", "ty": "str", "v": []any{"v"}}
+		}
 	}
 	return n
 }
